@@ -230,6 +230,10 @@ def _eval_expr(expr: ast.AST, env: Dict[str, object]):
         if isinstance(recv, dict):
             return tuple(getattr(recv, expr.func.attr)())
         raise Undecided(f"cannot evaluate {norm(expr)}")
+    if isinstance(expr, ast.Call) and norm(expr.func) == "dict.fromkeys" and len(expr.args) == 1 and not expr.keywords:
+        return dict.fromkeys(eval_expr(expr.args[0], env))
+    if isinstance(expr, ast.Call) and isinstance(expr.func, ast.Name) and expr.func.id in ("set", "list", "dict") and not expr.args and not expr.keywords:
+        return {"set": set, "list": list, "dict": dict}[expr.func.id]()   # a fresh mutable container the function may fill
     if isinstance(expr, ast.Call) and isinstance(expr.func, ast.Name):
         fn = expr.func.id
         if fn == "abs" and len(expr.args) == 1:
@@ -325,6 +329,10 @@ def eval_function(fn: ast.AST, env: Dict[str, object]):
             if isinstance(st, ast.AnnAssign) and isinstance(st.target, ast.Name) and st.value is not None:
                 v = eval_expr(st.value, env)
                 env[st.target.id] = list(v) if isinstance(st.value, (ast.List, ast.ListComp)) else v
+                continue
+            if isinstance(st, ast.Expr) and isinstance(st.value, ast.Call) and isinstance(st.value.func, ast.Attribute) and st.value.func.attr in ("add", "discard") \
+                    and isinstance(st.value.func.value, ast.Name) and isinstance(env.get(st.value.func.value.id), set) and len(st.value.args) == 1 and not st.value.keywords:
+                getattr(env[st.value.func.value.id], st.value.func.attr)(eval_expr(st.value.args[0], env))
                 continue
             if isinstance(st, ast.Expr) and isinstance(st.value, ast.Call) and isinstance(st.value.func, ast.Attribute) and st.value.func.attr in ("append", "extend") \
                     and isinstance(st.value.func.value, ast.Name) and isinstance(env.get(st.value.func.value.id), list) and len(st.value.args) == 1 and not st.value.keywords:
